@@ -130,9 +130,11 @@ def main(tier_, replay=None):
         cases = [gen_sub_case(rng, s) for _ in range(n_cases)]
         runs = asyncio.run(run_schema(s, cases, fresh_schema_name("c14")))
         ev_cases, ev_asts, ev_runs, streams = [], [], [], []
+        all_asts = []          # number lexemes of EVERY stream's document (also streams without events) for the float() table
         for c, r in zip(cases, runs):
             total_streams += 1
             ast = gen.parse_query(c["query"])
+            all_asts.append(ast)
             started = bool(r["started"])
             if r["raised"]:
                 sob = "SObsRaised"
@@ -174,7 +176,7 @@ def main(tier_, replay=None):
         for j in range(0, max(1, len(ev_cases)), step):
             files.append(("C14_s%d_%d_%d" % (seed, si, j),
                           c01.cases_file(s, ev_cases[j:j + step], ev_asts[j:j + step], ev_runs[j:j + step], cfg,
-                                         c01.IMPL_EVAL + c01.SPEC_EVAL + (sub_eval if j == 0 else ""))))
+                                         c01.IMPL_EVAL + c01.SPEC_EVAL + (sub_eval if j == 0 else ""), extra_asts=all_asts)))
             meta.append((s, ev_cases[j:j + step], ev_runs[j:j + step], cases if j == 0 else None))
     results = common.run_coq_many(files)
     impl_mm = []
